@@ -409,6 +409,29 @@ def equal_lengths(f):
     return eq
 
 
+def score_into_range(db, ctx, rid):
+    """Score::score_into scores exactly the sequence rows: 0 .. rows(matrix) - wrap of the *same* striped sequence (the look-ahead rows are
+    not positions; a range derived from the motif length instead is only right when wrap == M - 1)."""
+    f = [g for g in db.by_short.get('lightmotif::pli::Score::score_into', []) if g.raw.get('trait_default_of')]
+    if not f:
+        ctx.fail(rid, 'lightmotif::pli::Score::score_into', 'default body', 'reason=anchor-missing')
+        return
+    f = f[0]
+    R = X.Rec(f)
+    n = 0
+    for bi, t in f.calls():
+        if (f.callee_short(t) or '').endswith('Score::score_rows_into'):
+            n += 1
+            rng = norm(R.at(bi).operand(t['args'][3]))
+            seq = norm(R.operand(t['args'][2]))
+            b = m(('agg', '_', (('k', 0), ('bin', 'Sub', ('call~', 'DenseMatrix::rows', (('call~', 'StripedSequence::matrix', ('$s',)),)), ('call~', 'StripedSequence::wrap', ('$s2',))))), rng)
+            ok = b is not None and b['$s'] == b['$s2'] == seq
+            (ctx.ok if ok else ctx.fail)(rid, f, 'score_into scores rows 0..rows(data) - wrap', *([['range end within the sequence rows']] if ok else
+                                         [f'range is {X.show(rng, 100)}, expected 0 .. seq.matrix().rows() - seq.wrap() of the scored sequence']))
+    if not n:
+        ctx.fail(rid, f, 'score_into', 'reason=unrecognised-shape: no call to score_rows_into')
+
+
 def r63b(db, ctx):
     ctx.rule('R6.3', 'row pointers: each row pointer is advanced once per iteration of a loop whose trip count equals the number of rows it may visit, and every access through it stays inside the row '
                      '(offset + width <= C*size_of(T) <= size_of(Row)); library call sites pass row ranges within the sequence rows')
@@ -462,15 +485,7 @@ def r63b(db, ctx):
             else:
                 ctx.fail('R6.3', f, f'{a.name} leaves its row', f'access of {width} bytes at row + {X.lin_str(off)}: {why}', span=a.span)
     # call sites of score_rows_into inside the library pass ranges within rows - wrap
-    f = [g for g in db.by_short.get('lightmotif::pli::Score::score_into', []) if g.raw.get('trait_default_of')]
-    if f:
-        f = f[0]
-        R = X.Rec(f)
-        for bi, t in f.calls():
-            if (f.callee_short(t) or '').endswith('Score::score_rows_into'):
-                rng = norm(R.operand(t['args'][3]))
-                b = m(('agg', '_', (('k', 0), ('bin', 'Sub', ('call~', 'DenseMatrix::rows', ('_',)), ('call~', 'StripedSequence::wrap', ('_',))))), rng)
-                (ctx.ok if b is not None else ctx.fail)('R6.3', f, 'score_into scores rows 0..rows(data) - wrap', *([['range end within the sequence rows']] if b is not None else [f'range is {X.show(rng, 100)}']))
+    score_into_range(db, ctx, 'R6.3')
     ctx.note('R6.3: a caller-supplied row range outside 0..rows-wrap is not checked by the library (documented contract gap, out of the property\'s in-contract scope)')
     ctx.floor('R6.3', n, 40, 'row-pointer accesses shown inside their row')
 
